@@ -93,7 +93,9 @@ PROPS = {
                 # that follow it (validate, init, export, re-import) take the implementation's own default as their input
                 ops=[('genesis-validate', ''), ('genesis-init', ''), ('genesis-export', '')]),
     'C18': dict(level='other', scenarios=[('history', 3000, 20000, '')],
-                tags=[r'.*'],
+                # agreement with the model on everything the properties pin down; the CONTENT of events that no property
+                # constrains (those of administrative actions, diagnostics) is compared replay against replay only
+                tags=[r'^(?!ev:)(?!tx:[A-Za-z]+:events$).*$', r'^ev:(MessageSent|DepositForBurn|MintAndWithdraw|MessageReceived)$'],
                 ops=[('tx', None), ('query', None)],
                 explanation='see DESIGN.md C18: determinism is shown by agreement of every replay with the (functional) Lean model plus replay-vs-replay comparison of app hash, responses and events; scheduler/map-order effects are explored, not proved'),
     'C19': dict(level='proof', scenarios=[('registry', 3000, 40000, ''), ('history', 2500, 20000, 'query'), ('bulk', 300, 3000, ''), ('selftest', 300, 3000, '')],
